@@ -66,6 +66,12 @@ def segmentNearestMeasure (sqrt : α → α) (p0 p1 p : P2 α) (start : α) : α
   else if f ≤ 1 then start + f * dist sqrt p0 p1
   else start + dist sqrt p0 p1
 
+/-- `segDistance < minDistance` where `none` stands for the initial `DoubleInfinity` -/
+def closer (minD : Option α) (segD : α) : Bool :=
+  match minD with
+  | none => true
+  | some d => decide (segD < d)
+
 /-- loop of `LengthIndexOfPoint::indexOfFromStart(inputPt, minIndex)`; state = (minDistance (none = +∞), ptMeasure, segmentStartMeasure) -/
 def indexLoop (sqrt : α → α) (p : P2 α) (minIndex : α) :
     List (P2 α × P2 α) → Option α × α × α → Option α × α × α
@@ -73,7 +79,7 @@ def indexLoop (sqrt : α → α) (p : P2 α) (minIndex : α) :
   | (a, b) :: r, (minD, ptM, start) =>
     let segD := pointToSegment sqrt p a b
     let m := segmentNearestMeasure sqrt a b p start
-    let better := (match minD with | none => true | some d => decide (segD < d)) && decide (minIndex < m)
+    let better := closer minD segD && decide (minIndex < m)
     let st' := if better then (some segD, m, start + dist sqrt a b) else (minD, ptM, start + dist sqrt a b)
     indexLoop sqrt p minIndex r st'
 
